@@ -247,3 +247,5 @@ def check(ctx):
     from .engine import import_rules
     # chain relinking on delete / overwrite is this property's subject: adopt the link-origin rules
     import_rules(ctx, "c05", {"delete-links", "overwrite-links", "insert-links"})
+    import_rules(ctx, "c06", {"writer-arms"})
+    import_rules(ctx, "c01", {"op-wiring"})
